@@ -187,6 +187,7 @@ func main() {
 	var samples []interface{}
 	hist := map[string]int{}
 	rejected := 0
+	dirtyRuns := 0
 	for p := 0; p < nprog; p++ {
 		files, main := genProgram(r, p)
 		src := filepath.Join(work, fmt.Sprintf("src%d", p))
@@ -207,7 +208,7 @@ func main() {
 				rec := filepath.Join(work, fmt.Sprintf("rec-%d-%d-%d", p, bi, k))
 				cmd := exec.Command(*thriftgo, "-r", "-g", strings.TrimSuffix(be, ":"), "-p", "rec="+*plug, "-o", outdir, main)
 				cmd.Dir = src
-				cmd.Env = append(os.Environ(), fmt.Sprintf("GOMAXPROCS=%d", procs[k%len(procs)]), "VERIF_REC_OUT="+rec)
+				cmd.Env = append(os.Environ(), fmt.Sprintf("GOMAXPROCS=%d", procs[k%len(procs)]), "VERIF_REC_OUT="+rec, "VERIF_REC_PATCH=1")
 				done := make(chan error, 1)
 				var outb []byte
 				go func() { var e error; outb, e = cmd.CombinedOutput(); done <- e }()
@@ -236,6 +237,44 @@ func main() {
 				os.RemoveAll(outdir)
 				os.Remove(rec)
 			}
+			// one more run into a directory that still holds the output of a previous, different run
+			// (same program, more options => longer files): "regardless of previous runs"
+			if c.Runs[0].Exit == 0 {
+				outdir := filepath.Join(work, fmt.Sprintf("out-%d-%d-dirty", p, bi))
+				lang := be[:strings.IndexByte(be, ':')]
+				big := strings.TrimSuffix(be, ":")
+				if strings.HasSuffix(be, ":") {
+					big = lang + ":gen_setter,gen_deep_equal,with_reflection,keep_unknown_fields"
+				} else {
+					big = be + ",gen_setter,gen_deep_equal,with_reflection,keep_unknown_fields"
+				}
+				pre := exec.Command(*thriftgo, "-r", "-g", big, "-o", outdir, main)
+				pre.Dir = src
+				preErr := pre.Run()
+				cmd := exec.Command(*thriftgo, "-r", "-g", strings.TrimSuffix(be, ":"), "-p", "rec="+*plug, "-o", outdir, main)
+				cmd.Dir = src
+				cmd.Env = append(os.Environ(), "GOMAXPROCS=4", "VERIF_REC_PATCH=1")
+				exit := 0
+				if err := cmd.Run(); err != nil {
+					exit = 1
+				}
+				if preErr == nil {
+					want := map[string]bool{}
+					for _, f := range c.Runs[0].Files {
+						want[f.Path] = true
+					}
+					var fs []FileDigest
+					for _, f := range digestTree(outdir) {
+						if want[f.Path] {
+							fs = append(fs, f)
+						}
+					}
+					// plugin stdin is not recorded for this run: copy the reference values
+					c.Runs = append(c.Runs, Run{Gomaxprocs: 4, Dir: 1000, Exit: exit, Files: fs, PlugRaw: c.Runs[0].PlugRaw, PlugCanon: c.Runs[0].PlugCanon})
+					dirtyRuns++
+				}
+				os.RemoveAll(outdir)
+			}
 			evals++
 			hist[be]++
 			if c.Runs[0].Exit != 0 {
@@ -259,7 +298,7 @@ func main() {
 		"stats": map[string]interface{}{
 			"evaluations": evals, "distinct_nontrivial": nontrivial,
 			"rule":        "one case = one (generated multi-file program, backend option set) run nruns times under GOMAXPROCS 1..16 into different output directories with a recording plugin; non-trivial = thriftgo succeeded and wrote >= 2 files; programs are distinct by construction (seeded, indexed)",
-			"samples":     samples, "runs_per_case": nruns, "programs": nprog, "option_sets": hist, "rejected_by_impl": rejected,
+			"samples":     samples, "runs_per_case": nruns, "programs": nprog, "option_sets": hist, "rejected_by_impl": rejected, "runs_into_dirty_directory": dirtyRuns,
 		},
 	})
 }
